@@ -5,12 +5,14 @@ import (
 	"os"
 	"os/exec"
 	"regexp"
+	"strconv"
 	"strings"
 	"sync"
 	"time"
 
 	"verifmc/explore"
 	"verifmc/machine"
+	"verifmc/ref"
 )
 
 // C25 — instance independence. The only property with a genuine interleaving space:
@@ -251,6 +253,121 @@ var c25Progs = [][]byte{
 	}}),
 }
 
+// allOpcodes: a guest that executes every defined opcode (both tables) once per round, with the pointer registers
+// re-aimed at work RAM before each one and every control transfer landing on the following instruction. Whatever an
+// implementation builds lazily per opcode — a cached micro-op, a closure, a decoded entry — is built during the first
+// round of the first instance that runs, and used by every other instance afterwards.
+func allOpcodes() []byte {
+	const base = 0x150
+	var code []byte
+	here := func() uint16 { return base + uint16(len(code)) }
+	emit := func(b ...byte) { code = append(code, b...) }
+	setup := func() {
+		emit(0x01, 0x81, 0xc0) // LD BC,C081
+		emit(0x11, 0x82, 0xc0) // LD DE,C082
+		emit(0x21, 0x80, 0xc0) // LD HL,C080
+		emit(0x31, 0xf0, 0xdf) // LD SP,DFF0
+	}
+	// after every opcode A and F are stored in a log slot of their own (D000 + 2 x index), so that a wrong result or
+	// flag is still there at the end of the frame
+	slot := uint16(0xd000)
+	log := func() {
+		slot += 2
+		emit(0x31, byte(slot), byte(slot>>8), 0xf5) // LD SP,slot+2; PUSH AF
+	}
+	for op := 0; op < 256; op++ {
+		o := byte(op)
+		if ref.UndefinedOpcodes[o] || o == 0x10 || o == 0x76 || o == 0xcb {
+			continue
+		}
+		if op > 0 {
+			log()
+		}
+		setup()
+		switch {
+		case o == 0x18 || o == 0x20 || o == 0x28 || o == 0x30 || o == 0x38: // JR
+			emit(o, 0x00)
+		case o == 0xc3 || o == 0xc2 || o == 0xca || o == 0xd2 || o == 0xda: // JP nn
+			t := here() + 3
+			emit(o, byte(t), byte(t>>8))
+		case o == 0xe9: // JP (HL)
+			t := here() + 4
+			emit(0x21, byte(t), byte(t>>8), o)
+		case o == 0xcd || o == 0xc4 || o == 0xcc || o == 0xd4 || o == 0xdc: // CALL -> RET stub at 0000
+			emit(o, 0x00, 0x00)
+		case o&0xc7 == 0xc7: // RST -> RET stub
+			emit(o)
+		case o == 0xc9 || o == 0xd9 || o == 0xc0 || o == 0xc8 || o == 0xd0 || o == 0xd8: // RET, RETI, RET cc
+			t := here() + 6 // LD DE,t (3) PUSH DE (1) RET (1) POP DE (1)
+			emit(0x11, byte(t), byte(t>>8), 0xd5, o, 0xd1)
+			if o == 0xd9 {
+				emit(0xf3) // DI after RETI
+			}
+		default:
+			emit(o)
+			switch c25OpLen(o) {
+			case 2:
+				if o == 0xe0 || o == 0xf0 {
+					emit(0x80)
+				} else if o == 0xe8 || o == 0xf8 {
+					emit(0x01)
+				} else {
+					emit(0x5a)
+				}
+			case 3:
+				emit(0xa4, 0xc0)
+			}
+			if o == 0xfb {
+				emit(0xf3) // DI after EI
+			}
+		}
+	}
+	for op := 0; op < 256; op++ {
+		log()
+		setup()
+		emit(0xcb, byte(op))
+	}
+	log()
+	emit(0xc3, byte(base&0xff), byte(base>>8))
+	chunks := map[uint16][]byte{0x100: {0xf3, 0xc3, byte(base & 0xff), byte(base >> 8)}, base: code}
+	for v := uint16(0); v < 0x40; v += 8 {
+		chunks[v] = []byte{0xc9}
+	}
+	return machine.Program(chunks)
+}
+
+// c25OpLen: length in bytes of an unprefixed opcode (immediate operands).
+func c25OpLen(o byte) int {
+	switch {
+	case o == 0x01 || o == 0x11 || o == 0x21 || o == 0x31 || o == 0x08 || o == 0xea || o == 0xfa:
+		return 3
+	case o&0xc7 == 0x06 || o&0xc7 == 0xc6 || o == 0xe0 || o == 0xf0 || o == 0xe8 || o == 0xf8:
+		return 2
+	}
+	return 1
+}
+
+func init() { c25Progs = append(c25Progs, allOpcodes()) } // P12
+
+// c25AllOpcodesCovered runs P12 alone and counts the distinct opcodes fetched in 2.5 rounds: the guest must really get
+// through all of them (a harness self-check; it says nothing about the emulator).
+func c25AllOpcodesCovered() int {
+	m := machine.New(c25Progs[12], machine.Opts{})
+	seen := map[int]bool{}
+	for i := 0; i < 32000; i++ {
+		if m.CPU.VAtBoundary() {
+			pc := m.CPU.VGet().PC
+			if op := m.Map.Read(pc); op == 0xcb {
+				seen[256+int(m.Map.Read(pc+1))] = true
+			} else {
+				seen[int(op)] = true
+			}
+		}
+		m.Cycle()
+	}
+	return len(seen)
+}
+
 type c25Case struct {
 	// Cfg: per instance, the emulator's debug options (Config.DebugCPU = bit 0, Config.DebugLCD = bit 1); nil = none.
 	// An instance is compared with a solo run built with the same options; an instance built without the
@@ -263,8 +380,10 @@ type c25Case struct {
 }
 
 type c25Env struct {
-	solo map[string][]uint64 // prog/unit -> digest after k steps
-	out  *os.File            // the process's standard output while the part runs (nil: not captured)
+	solo    map[string][]uint64 // prog/unit -> digest after k steps
+	out     *os.File            // the process's standard output while the part runs (nil: not captured)
+	exe     string              // this binary (solo runs are made in fresh processes)
+	soloErr error
 }
 
 // outSize: bytes written to standard output so far in this case.
@@ -295,7 +414,31 @@ func (e *c25Env) soloDigests(prog, cfg, unit, n int) []uint64 {
 	if d, ok := e.solo[k]; ok {
 		return d
 	}
-	// the solo run is taken in a process state where this is the only live instance being stepped
+	// the solo run is taken in a process of its own, where the instance really is the only one that ever existed:
+	// state that a defect binds to the FIRST instance of a process makes every later instance wrong in the same way,
+	// so an in-process "solo" run would be just as wrong as the instances it is compared with
+	if e.exe != "" {
+		out, err := exec.Command(e.exe, "worker", "c25solo", fmt.Sprint(prog), fmt.Sprint(cfg), fmt.Sprint(unit), fmt.Sprint(n)).Output()
+		if err == nil {
+			var ds []uint64
+			for _, f := range strings.Fields(string(out)) {
+				if v, err := strconv.ParseUint(f, 16, 64); err == nil {
+					ds = append(ds, v)
+				}
+			}
+			if len(ds) == n+2 {
+				e.solo[k] = ds
+				return ds
+			}
+		}
+		e.soloErr = fmt.Errorf("solo worker for program %d: %v (%d digests)", prog, err, len(strings.Fields(string(out))))
+	}
+	ds := c25Solo(prog, cfg, unit, n)
+	e.solo[k] = ds
+	return ds
+}
+
+func c25Solo(prog, cfg, unit, n int) []uint64 {
 	m := machine.New(c25Progs[prog], c25Opts(cfg))
 	ds := []uint64{m.Digest(false)}
 	for i := 0; i < n; i++ {
@@ -304,9 +447,25 @@ func (e *c25Env) soloDigests(prog, cfg, unit, n int) []uint64 {
 		}
 		ds = append(ds, m.Digest(false))
 	}
-	ds = append(ds, m.DigestMode(1))
-	e.solo[k] = ds
-	return ds
+	return append(ds, m.DigestMode(1))
+}
+
+func c25SoloWorker(args []string) int {
+	var v [4]int
+	if len(args) != 4 {
+		return 2
+	}
+	for i := range v {
+		v[i], _ = strconv.Atoi(args[i])
+	}
+	// a traced instance prints to standard output: the digests go to standard error's sibling, fd 3 is not
+	// available, so the trace is silenced and only the digests are printed
+	var ds []uint64
+	quietStdout(func() { ds = c25Solo(v[0], v[1], v[2], v[3]) })
+	for _, d := range ds {
+		fmt.Printf("%016x\n", d)
+	}
+	return 0
 }
 
 func c25Check(l *explore.Local, e *c25Env, c c25Case) *explore.Fail {
@@ -318,6 +477,9 @@ func c25Check(l *explore.Local, e *c25Env, c c25Case) *explore.Fail {
 	solo := make([][]uint64, n)
 	for i := range solo {
 		solo[i] = e.soloDigests(c.Progs[i], c.cfg(i), c.Unit, per[i])
+	}
+	if e.soloErr != nil {
+		return explore.Failf("harness: the solo run in a separate process failed", "%v", e.soloErr)
 	}
 	if e.out != nil {
 		e.out.Truncate(0)
@@ -477,9 +639,10 @@ func interleavings(n, k int, yield func([]int) bool) {
 
 func init() {
 	Workers["c25race"] = c25RaceWorker
+	Workers["c25solo"] = c25SoloWorker
 	register("C25", "model_checking", func(c *Ctx) {
 		if c.R != nil {
-			c.R.Rule = "every interleaving of k emulator instances x n steps each (step = 1, 7 or 17556 machine cycles), under 3 creation orders; after every step every live instance's digest (registers + selected reads; all writable regions + ROM-window probes + frame at the end) must equal its solo run at the same step count; a case is one complete schedule"
+			c.R.Rule = "every interleaving of k emulator instances x n steps each (step = 1, 7 or 17556 machine cycles), under 3 creation orders; after every step every live instance's digest (registers + selected reads; all writable regions + ROM-window probes + frame at the end) must equal its solo run at the same step count, the solo run being made in a process of its own (where the instance is the only one that ever existed); a case is one complete schedule"
 			c.R.Assumptions = []string{"instances are wired like gameboy.New (machine.New; C26 checks the wiring equivalence)", "explored in one goroutine so that a shared-state defect fails deterministically; true parallel execution is covered by a separate free-running pass of the same bodies under the Go race detector (supporting evidence)"}
 		}
 		type shape struct{ n, k int }
@@ -528,7 +691,7 @@ func init() {
 				}
 			}
 			// the same at frame-sized steps (2 instances x 2 frames); P10 needs a frame to reach the LCD-on loop
-			for _, mc := range []struct{ ps, cfg []int }{{[]int{10, 0}, []int{0, 1}}, {[]int{10, 10}, []int{0, 3}}, {[]int{9, 10}, []int{2, 0}}, {[]int{10, 9}, nil}, {[]int{9, 11}, nil}, {[]int{11, 9}, nil}, {[]int{11, 10}, nil}} {
+			for _, mc := range []struct{ ps, cfg []int }{{[]int{10, 0}, []int{0, 1}}, {[]int{10, 10}, []int{0, 3}}, {[]int{9, 10}, []int{2, 0}}, {[]int{10, 9}, nil}, {[]int{9, 11}, nil}, {[]int{11, 9}, nil}, {[]int{11, 10}, nil}, {[]int{12, 12}, nil}, {[]int{12, 1}, nil}, {[]int{0, 12}, nil}} {
 				for cr := 0; cr < 3; cr++ {
 					ok := true
 					interleavings(2, 2, func(s []int) bool {
@@ -558,6 +721,9 @@ func init() {
 				}
 			}
 		}
+		if n := c25AllOpcodesCovered(); n < 498 && c.R != nil {
+			c.R.HarnessError("the all-opcodes guest executes only %d of 498 opcodes", n)
+		}
 		// the CPU trace of instances built with DebugCPU goes to os.Stdout: capture it in a scratch file for the part
 		var capture *os.File
 		oldStdout := os.Stdout
@@ -567,8 +733,8 @@ func init() {
 		}
 		explore.Product(c.R, "interleavings", explore.PartOpt{Workers: 1, Guard: true,
 			Bound:  fmt.Sprintf("all interleavings of shapes %v (instances x steps), units %v cycles + frame steps 2x3, 3x2; 3 creation orders", shapes, units),
-			Domain: "instances built with and without the debug options (CPU trace, debug LCD geometry) side by side; 12 guest programs (a second video program with other tile data and scroll; execution across echo RAM into object memory with the LCD on; ALU/CB/branches; stores/stack/CALL; timer interrupt + HALT; cartridge RAM writer on MBC1 with 4 banks; cartridge RAM read-before-write on MBC1 with 1 bank, on MBC2 and on MBC5; two sound programs that power-cycle the APU and run different channel-1 sweeps; video + OAM DMA + serial + joypad select)"},
-			gen, func() *c25Env { return &c25Env{solo: map[string][]uint64{}, out: capture} }, c25Check)
+			Domain: "instances built with and without the debug options (CPU trace, debug LCD geometry) side by side; 13 guest programs (a guest executing every defined opcode once per round; a second video program with other tile data and scroll; execution across echo RAM into object memory with the LCD on; ALU/CB/branches; stores/stack/CALL; timer interrupt + HALT; cartridge RAM writer on MBC1 with 4 banks; cartridge RAM read-before-write on MBC1 with 1 bank, on MBC2 and on MBC5; two sound programs that power-cycle the APU and run different channel-1 sweeps; video + OAM DMA + serial + joypad select)"},
+			gen, func() *c25Env { return &c25Env{solo: map[string][]uint64{}, out: capture, exe: c.SelfExe} }, c25Check)
 		os.Stdout = oldStdout
 		c25RacePass(c)
 	})
